@@ -10,7 +10,7 @@ use serde::{Deserialize, Serialize};
 use soroban_sdk::xdr::ScVal;
 use soroban_sdk::Address;
 
-const X: &str = "ethereum";
+const X: &str = "Ethereum-Sepolia";
 const Y: &str = "avalanche";
 const SALT1: [u8; 32] = [0x51; 32];
 const D1: [u8; 32] = [0xd1; 32];
@@ -596,7 +596,7 @@ fn strip(d: &Dev) -> String {
 fn main() {
     main_for(|tier| {
         let thorough = tier == "thorough";
-        let mut o = Opts::new(tier, if thorough { 4 } else { 2 });
+        let mut o = Opts::new(tier, if thorough { 5 } else { 3 });
         o.min_depth = 2;
         o.rule = "histories over {set/remove trusted chain X, Y} and deliveries; a delivery = one of 5 conforming messages (transfer to service-deployed token, to canonical token, with data to an app, remote deploy without/with minter) with ONE deviation from {none, never approved, approved with other payload / id / source address / destination contract, source chain not the hub, source address not the hub address, SendToHub wrapper, outer type 0/1/2/5/255, inner type 2/3/4/5/255, a dirty high byte in the outer / inner type word, origin never trusted, origin Y (trusted only after set), unknown token, 3 kinds of undecodable recipient/minter bytes, amount words 2^127, 2^128, 2^128+1000, 2^184+7, 2^192+5, 2^255, ff..ff, truncation at every 32-byte word, 3 kinds of trailing bytes on the payload and on the inner message, over-custody amount, taken token id, empty name, empty symbol}; delivering the same message twice arises as a path; thorough: every PAIR of deviations of different classes from the states reached by trust changes; payloads come from the independent ABI encoder".into();
         (C04 { thorough }, o)
